@@ -10,7 +10,7 @@ from props.C06 import describe, rules
 
 REQUIRED_THEOREMS = ['Usid.C19.sidpy_coords', 'Usid.C19.image_pixels', 'Usid.C19.array_rejected_before_file',
                      'Usid.C19.array_valid_iff', 'Usid.C19.array_layout', 'Usid.C19.unfixed_reshape_counterexample']
-RULE = ('[also: labelled datasets one of whose axes was re-assigned by attribute (internal axis dictionary out of order)] [also: images as comma-separated text, colour png, tif, bmp; resampling filters NEAREST / BILINEAR / BOX; the recorded binning, filter, image_min / image_max observed] [also: an extra dataset holding an integer that single precision cannot represent, element kinds of the stored extras observed] [also: dimension / axis values that are not increasing, lazy inputs in several chunks, dtype= / compression= keyword arguments, verbose=True] three families. ARRAY: generator datasets through ArrayTranslator as numpy or dask arrays, dimension lists given '
+RULE = ('[also: indexed-colour and bilevel images] [also: labelled datasets one of whose axes was re-assigned by attribute (internal axis dictionary out of order)] [also: images as comma-separated text, colour png, tif, bmp; resampling filters NEAREST / BILINEAR / BOX; the recorded binning, filter, image_min / image_max observed] [also: an extra dataset holding an integer that single precision cannot represent, element kinds of the stored extras observed] [also: dimension / axis values that are not increasing, lazy inputs in several chunks, dtype= / compression= keyword arguments, verbose=True] three families. ARRAY: generator datasets through ArrayTranslator as numpy or dask arrays, dimension lists given '
         'fastest first (or a bare Dimension), with/without parameter dictionaries and extra datasets (lists, arrays, '
         'dask arrays), a pre-existing file at the output path or none, and one (sometimes two) invalidities out of: '
         'non-string argument, data that is not an array / not 2D, dimension lists of the wrong type or whose sizes do not '
@@ -96,7 +96,7 @@ def generate(seed, tier):
         # other file formats (comma-separated text, colour, tif, bmp) and resampling filters, from a stream of their own
         rv = derived_rng(seed, 'C19iv', i)
         if rv.random() < 0.45:
-            cases[-1]['fmt'] = rv.choice(['csv', 'rgb', 'tif', 'bmp', 'rgb'])
+            cases[-1]['fmt'] = rv.choice(['csv', 'rgb', 'tif', 'bmp', 'rgb', 'palette', 'bilevel', 'palette'])
             if cases[-1]['fmt'] == 'rgb':
                 cases[-1]['pix_gb'] = [[[rv.randint(0, 255), rv.randint(0, 255)] for _ in range(cases[-1]['w'])]
                                        for _ in range(cases[-1]['h'])]
@@ -360,12 +360,19 @@ def _run_image(inp, work):
     from PIL import Image
     from pyUSID.io.image import ImageTranslator
     pix = np.array(inp['pix'], dtype=np.uint8)
-    img_path = os.path.join(work, 'picture.' + {'rgb': 'png'}.get(inp['fmt'], inp['fmt']))
+    img_path = os.path.join(work, 'picture.' + {'rgb': 'png', 'palette': 'png', 'bilevel': 'png'}.get(inp['fmt'], inp['fmt']))
     if inp['fmt'] in ('png', 'tif', 'bmp'):
         Image.fromarray(pix, mode='L').save(img_path)
     elif inp['fmt'] == 'rgb':
         gb = np.array(inp['pix_gb'], dtype=np.uint8)
         Image.fromarray(np.dstack([pix, gb[:, :, 0], gb[:, :, 1]]), mode='RGB').save(img_path)
+    elif inp['fmt'] == 'palette':
+        # indexed colour: the stored numbers are palette indices, the intensities come from the palette
+        im = Image.fromarray((pix % 7).astype(np.uint8), mode='P')
+        im.putpalette([(37 * k + 11 * c) % 256 for k in range(256) for c in range(3)])
+        im.save(img_path)
+    elif inp['fmt'] == 'bilevel':
+        Image.fromarray(pix > 127).convert('1').save(img_path)
     elif inp['fmt'] == 'csv':
         np.savetxt(img_path, pix.astype(float), delimiter=',')
     else:
@@ -571,7 +578,7 @@ def model_requests_obs(inp, obs):
     if inp['kind'] == 'image':
         if inp['bin'] is not None or inp['normalize'] or 'err' in obs or inp['preexisting']:
             return []
-        if inp['fmt'] == 'rgb':
+        if inp['fmt'] in ('rgb', 'palette', 'bilevel'):
             # colour is reduced to grey levels by PIL (not modelled): the model is handed the decoded grey image
             return [{'op': 'trans.image', 'shape': [inp['h'], inp['w']],
                      'flat': [int(round(float(x))) for row in obs['proc'] for x in row]}]
